@@ -174,7 +174,7 @@ class Driver(object):
         return '(([%s]%%N) ++ repeat %d%%N (N.to_nat %d%%N))' % (
             ';'.join(str(ord(c)) for c in t[:len(t) - k]), ord(t[-1]), k)
 
-    def case_roundtrip(self, body, props, fmax):
+    def case_roundtrip(self, body, props, fmax, dribble=False):
         from pamqp import specification as spec
         from harness import vconn, vrt
         op = Opaque()
@@ -190,7 +190,8 @@ class Driver(object):
             coq_list(['(%d%%N, %s)' % (i, to_pv(v, op)) for i, v in wanted]), fmax))
         bad = ('{| ro_ok := false; ro_raw := []; ro_decoded := PNone; ro_props := []; '
                'ro_frames := []; ro_extra := 0%nat |}')
-        meta = dict(kind='roundtrip', body=repr(body)[:60], props=repr(props)[:200], fmax=fmax)
+        meta = dict(kind='roundtrip', body=repr(body)[:60], props=repr(props)[:200], fmax=fmax,
+                    dribble=dribble)
         try:
             rt, br, conn = vconn.open_connection(dict(frame_max=fmax))
             pub = conn.channel(rpc_timeout=2)
@@ -211,17 +212,27 @@ class Driver(object):
 
             def forward(b, ch, m, h, bdy):
                 # the consumer gets exactly the frames the publisher produced
-                b.send(con.channel_id, spec.Basic.Deliver(consumer_tag='rt', delivery_tag=1,
-                                                          exchange=m.exchange,
-                                                          routing_key=m.routing_key))
-                b.send(con.channel_id, stash['header'])
-                for fr in stash.get('bodies', []):
-                    b.send(con.channel_id, fr)
+                out = [spec.Basic.Deliver(consumer_tag='rt', delivery_tag=1, exchange=m.exchange,
+                                          routing_key=m.routing_key), stash['header']] + \
+                    stash.get('bodies', [])
+                if not dribble:
+                    for fr in out:
+                        b.send(con.channel_id, fr)
+                else:
+                    stash['later'] = out
             br.handlers['ContentBody'] = on_body
             br.handlers['ContentHeader'] = on_header
             br.handlers['@published'] = forward
             pub.basic.publish(body, 'rk', properties=dict(props))
             vconn.settle(rt, 3)
+            later = list(stash.get('later', []))
+            if later:
+                # one frame per read: each sleep of the consuming call lets exactly one more
+                # frame arrive, so the consumer looks at every partial state of the queue
+                def feeder():
+                    if later:
+                        br.send(con.channel_id, later.pop(0))
+                rt.idle_hooks.insert(0, feeder)
             con.process_data_events()
             vconn.settle(rt, 2)
             extra = len(con._inbound)
@@ -367,7 +378,7 @@ class Driver(object):
             out.append(self.case_utf8(bytes([b0])))
         # structured 3- and 4-byte prefixes
         for p in [b'\xe0\xa0', b'\xe0\x9f', b'\xe1\x80', b'\xed\x9f', b'\xed\xa0',
-                  b'\xef\xbf', b'\xe2\x82', b'\xf0\x90\x80', b'\xf0\x8f\xbf',
+                  b'\xef\xbf', b'\xef\xbb', b'\xef\xbb\xbf', b'\xe2\x82', b'\xf0\x90\x80', b'\xf0\x8f\xbf',
                   b'\xf4\x8f\xbf', b'\xf4\x90\x80', b'\xf1\x80\x80', b'\xf5\x80\x80',
                   b'ab\xc3', b'\xe2\x82\xac\xe2\x82', b'\xf0\x9f\x98']:
             out.append(self.case_utf8(p))
@@ -396,7 +407,7 @@ class Driver(object):
                 rnd.random() < 0.5, rnd.choice(SETTERS),
                 rnd.choice(['v', b'v', 'é'.encode(), b'\xff', 5, None, 1.5])))
         for _ in range(60 if tier == 'quick' else 600):
-            out.append(self.case_roundtrip(*self.gen_roundtrip(rnd)))
+            out.append(self.case_roundtrip(*self.gen_roundtrip(rnd), dribble=rnd.random() < 0.35))
         return out
 
     def replay_cases(self, doc):
